@@ -823,7 +823,8 @@ class ConfigurableReference:
     return not self.__eq__(other)
 
   def __hash__(self):
-    return hash(repr(self))
+    # Not the repr: how the selector is spelled depends on the parse context.
+    return hash((*self.config_key, self._evaluate))
 
   def __repr__(self):
     # Check if this reference is a macro or constant, i.e. @.../macro() or
@@ -833,7 +834,7 @@ class ConfigurableReference:
       return '%' + '/'.join(self._scopes)
     maybe_parens = '()' if self._evaluate else ''
     import_manager = _parse_context().import_manager
-    if import_manager is not None and import_manager.dynamic_registration:
+    if import_manager is not None:
       selector = import_manager.minimal_selector(self._configurable)
     else:
       selector = self.selector
